@@ -255,12 +255,14 @@ SLY_YACC_ANCHORS = [
      "production precedence = right-most terminal"),
     ("LRTable.lr_parse_table", "sprec, slevel = Precedence.get(a, ('right', 0))",
      "shift precedence comes from the look-ahead token"),
+]
+
+SLY_YACC_ERROR_ANCHORS = [
     ("Parser.parse", "tok = self.error(errtoken)", "error() is consulted on a syntax error"),
     ("Parser.parse", "self.state = 0", "after a returning error() the parser discards input and restarts at state 0"),
     ("Parser.parse", "t = actions[self.state].get(ltype)", "table-driven parse"),
     ("Parser.parse", "value = p.func(self, pslice)", "the production's function computes the value"),
     ("Parser.error", "sys.stderr.write('sly: Parse error in input. EOF\\n')", "the default error() only prints"),
-    ("LRTable.__init__", "if len(rules) == 1 and rules[0] < 0:", "only single-REDUCE states are defaulted (accept still needs $end)"),
     ("Parser.parse", "if self.state not in defaulted_states:", "the look-ahead is consulted in every non-defaulted state"),
     ("Parser.parse", "lookahead.type = '$end'", "end of input is the $end look-ahead"),
     ("Parser.parse", "if t == 0:", "accept only through the table's accept action"),
